@@ -698,7 +698,8 @@ pub fn exec(case: &Case, mode: Mode) -> Result<CaseReport, Failure> {
     let mut run = Run::new(case).map_err(|e| Failure::new("setup-failed", e))?;
     let mut excused = vec![];
     for s in &case.steps {
-        if let Err(f) = run.step(s, mode, &mut excused) {
+        let r = run.step(s, mode, &mut excused).and_then(|_| routing_is_consistent(&run.bob, &format!("{s:?}")));
+        if let Err(f) = r {
             let mut t = std::mem::take(&mut run.trace);
             t.push(format!("FAILED at {s:?}"));
             set_last_trace(t);
@@ -714,6 +715,35 @@ pub fn exec(case: &Case, mode: Mode) -> Result<CaseReport, Failure> {
     });
     let _ = World::actors;
     Ok(rep)
+}
+
+/// Every group the recipient knows - pending ones included - is found under the Nostr group id
+/// its own record carries (that lookup is how events and `accept_welcome` reach it), and under
+/// no other group's id.
+fn routing_is_consistent(bob: &Actor, after: &str) -> Result<(), Failure> {
+    use mdk_storage_traits::groups::GroupStorage;
+    use openmls_traits::OpenMlsProvider;
+    on_mdk!(&bob.mdk, m => {
+        let groups = m.get_groups().unwrap_or_default();
+        for g in &groups {
+            match m.provider.storage().find_group_by_nostr_group_id(&g.nostr_group_id) {
+                Ok(Some(found)) if found.mls_group_id == g.mls_group_id => {}
+                other => {
+                    return Err(Failure::new(
+                        "group-not-reachable-under-its-own-nostr-group-id",
+                        format!(
+                            "after {after}: the record of group {:?} ({}) carries Nostr group id {}, looking that id up finds {}",
+                            g.name,
+                            g.state.as_str(),
+                            crate::fingerprint::sh(&hex::encode(g.nostr_group_id), 8),
+                            match other { Ok(Some(f)) => format!("group {:?}", f.name), Ok(None) => "nothing".to_string(), Err(e) => format!("an error ({e})") }
+                        ),
+                    ));
+                }
+            }
+        }
+        Ok(())
+    })
 }
 
 fn step_strategy() -> impl Strategy<Value = WStep> {
